@@ -275,7 +275,7 @@ Section Wf.
         num_ok id && match placement with Some p => num_ok p | None => true end
         && match error with
            | None => true
-           | Some msg => Payload.utf8_valid msg && forallb text_byte_ok msg && negb (bytes_eqb msg [79; 75])
+           | Some msg => utf8_valid msg && forallb text_byte_ok msg && negb (bytes_eqb msg [79; 75])
            end
     | RColor name (RGBA r g b a) form upper e =>
         (r <? 256) && (g <? 256) && (b <? 256) && (a =? 255)
@@ -285,7 +285,7 @@ Section Wf.
         forallb (fun kv => name_ok (fst kv) && name_ok (snd kv)) caps && keys_increasing (map fst caps)
     | RTermcapFail names upper =>
         negb (match names with [] => true | _ => false end) && forallb name_ok names && keys_increasing names
-    | RPaste text => Payload.utf8_valid text && forallb text_byte_ok text
+    | RPaste text => utf8_valid text && forallb text_byte_ok text
     | RSgr params | RFaceReport params => sgr_wf params && negb (sgr_inexpressible params)
     end.
 End Wf.
